@@ -357,7 +357,35 @@ def ev_single(case, rec):
     ev(case, rec)
 
 
-SUBCHECKS = [Sub('files', gen, ev_single, chunk=1, floor=1000, guard=True, envs=6)]
+# --- two threads interpolating DIFFERENT positions on the SAME grid object (and on two grid objects of one file) -----------
+from gpmc import threads as _thr
+_TGRID = {}
+
+
+def _tgrid(k='a'):
+    if k not in _TGRID:
+        if 'path' not in _TGRID:
+            _TGRID['path'] = materialise(layout_by_id('nested-biquadratic'), 'thr')[0]
+        _TGRID[k] = read_ntv2_file(_TGRID['path'])
+    return _TGRID[k]
+
+
+T_CALLS = {
+    'child_bicubic': lambda: (lambda g=_tgrid(): interpolate_ntv2(g, -29.5, 149.4, 'bicubic')),
+    'child_bilinear': lambda: (lambda g=_tgrid(): interpolate_ntv2(g, -29.45, 149.45, 'bilinear')),
+    'parent_bilinear': lambda: (lambda g=_tgrid(): interpolate_ntv2(g, -29.9, 149.9, 'bilinear')),
+    'parent_bicubic_edge': lambda: (lambda g=_tgrid(): interpolate_ntv2(g, -29.17, 149.02, 'bicubic')),
+    'outside': lambda: (lambda g=_tgrid(): interpolate_ntv2(g, -10.0, 100.0, 'bilinear')),
+    'ntv2_2d_rev': lambda: (lambda g=_tgrid(): ntv2_2d(g, -29.6, 149.35, False, 'bicubic')),
+    'other_object': lambda: (lambda g=_tgrid('b'): interpolate_ntv2(g, -29.55, 149.5, 'bicubic')),
+    'read_file': lambda: (lambda: sorted(read_ntv2_file(_tgrid() and _TGRID['path']).subgrids)),
+}
+_tg, _te = _thr.make(T_CALLS, ['geodepy/ntv2reader.py', 'geodepy/transform.py'], 'ntv2reader:threads',
+                     quick=['child_bicubic', 'parent_bilinear', 'other_object'],
+                     triple=('child_bicubic', 'parent_bilinear', 'read_file'), parts=16)
+
+
+SUBCHECKS = [Sub('files', gen, ev_single, chunk=1, floor=1000, guard=True, envs=6), Sub('threads', _tg, _te, chunk=1, floor=3, poison=False)]
 
 
 def bounds(tier, seed):
